@@ -68,8 +68,20 @@ func ZZ_C14_interf(a []int) {
 	only := a[0] // setter to apply (-1: all of them, one after the other)
 	a = a[1:]
 	sh := zzShapeOf(a)
+	// the bystander is concrete; the packet that is operated on has symbolic
+	// values only for small shapes (every boolean property doubles the paths
+	// of each of the two decodes)
+	shB := sh
+	shB.nz = 3
+	bits := 0
+	for m := sh.mask; m != 0; m &= m - 1 {
+		bits++
+	}
+	if bits > 2 {
+		sh.nz = 3
+	}
 	absA := zzGen2(sh, "A.")
-	absB := zzGen2(sh, "B.")
+	absB := zzGen2(shB, "B.")
 	fA, fB := zzRefEncode(absA), zzRefEncode(absB)
 	q1, e1 := ReadPacket(&zzContig{b: fA})
 	q2, e2 := ReadPacket(&zzContig{b: fB})
@@ -193,7 +205,9 @@ func ZZ_C14_after(a []int) {
 // unchanged (a reused or pooled read buffer would show here).
 func ZZ_C14_kept(a []int) {
 	n := a[0]
-	abs := zzGen2(zzShapeOf(a[1:]), "K.")
+	sh := zzShapeOf(a[1:])
+	sh.nz = 3 // concrete first frame: what matters is whether the second read touches it
+	abs := zzGen2(sh, "K.")
 	s := zzRefEncode(abs)
 	s = append(s, zzU8("b0"), byte(n))
 	s = append(s, zzBytes("b", n)...)
